@@ -444,13 +444,27 @@ func runCase(raw json.RawMessage) interface{} {
 		var zb bytes.Buffer
 		zw, _ := gzip.NewWriterLevel(&zb, gzip.BestCompression)
 		chunk := make([]byte, 1<<20)
+		// command-carrying types decode their body as JSON: fill with JSON whitespace and end with "{}" so that a body
+		// within the limit is a well-formed command and the positive cases exercise the whole decode path
+		isCmd := c.Ty&0x3F == 0x10 || c.Ty&0x3F == 0x11
+		if isCmd {
+			for i := range chunk {
+				chunk[i] = ' '
+			}
+		}
 		left := c.Inflated
 		for left > 0 {
 			k := len(chunk)
 			if k > left {
 				k = left
 			}
-			zw.Write(chunk[:k])
+			if isCmd && k == left && k >= 2 {
+				last := append([]byte(nil), chunk[:k]...)
+				last[k-2], last[k-1] = '{', '}'
+				zw.Write(last)
+			} else {
+				zw.Write(chunk[:k])
+			}
 			left -= k
 		}
 		zw.Close()
